@@ -423,7 +423,8 @@ def gen_op(r, w, i):
         # malformed variable texts only in raise mode (rejected as a whole); what log mode salvages from a
         # malformed text is input handling, not map discipline
         badtext = bad and cfg["raise"]
-        return {"op": k, "text": "; ".join(f"{r.choice(VNAMES)}: {r.choice(BAD_VALUES[:-1] if (badtext and r.random() < 0.4) else VALUES)}" for _ in range(r.randrange(0, 4)))}
+        # (comments between the variables: items of the block's sequence that are no variables)
+        return {"op": k, "text": "; ".join(f"{r.choice(['', '', '/*c*/ ', '/*a*/ /*b*/'])}{r.choice(VNAMES)}: {r.choice(BAD_VALUES[:-1] if (badtext and r.random() < 0.4) else VALUES)}{r.choice(['', '', ' /*d*/'])}" for _ in range(r.randrange(0, 4)))}
     if i == 0 and cfg["init"]:
         k = "text"
     else:
